@@ -225,6 +225,8 @@ def r4_n_failure_cases(ctx):
                                 tg = w.targets if isinstance(w, ast.Assign) else [w.target]
                                 if not all("failure_case" in txt(t) for t in tg):
                                     probs.append(f"branch on n_failure_cases assigns {txt(tg[0])}")
+                            elif isinstance(w, ast.Return) and w.value is not None and "failure_case" in txt(w.value) and "failure_case" in f.name:
+                                pass   # a failure-case helper returning (truncated or full) failure cases
                             elif isinstance(w, (ast.Return, ast.Raise)):
                                 probs.append("branch on n_failure_cases returns/raises")
                 elif isinstance(st, ast.Assign):
